@@ -171,6 +171,10 @@ impl CelValue {
         CelError::Value("integer overflow".to_owned()).into()
     }
 
+    fn time_overflow() -> CelValue {
+        CelError::Value("timestamp or duration out of range".to_owned()).into()
+    }
+
     pub fn value_error(msg: &str) -> CelValue {
         CelError::Value(msg.to_owned()).into()
     }
@@ -1285,12 +1289,22 @@ impl Add for CelValue {
                 }
                 CelValue::TimeStamp(v1) => {
                     if let CelValue::Duration(v2) = rhs {
-                        return CelValue::from_timestamp(v1 + v2);
+                        return v1
+                            .checked_add_signed(v2)
+                            .map_or_else(CelValue::time_overflow, CelValue::from_timestamp);
                     }
                 }
                 CelValue::Duration(v1) => match rhs {
-                    CelValue::TimeStamp(v2) => return CelValue::from_timestamp(v2 + v1),
-                    CelValue::Duration(v2) => return CelValue::Duration(v1 + v2),
+                    CelValue::TimeStamp(v2) => {
+                        return v2
+                            .checked_add_signed(v1)
+                            .map_or_else(CelValue::time_overflow, CelValue::from_timestamp)
+                    }
+                    CelValue::Duration(v2) => {
+                        return v1
+                            .checked_add(&v2)
+                            .map_or_else(CelValue::time_overflow, CelValue::Duration)
+                    }
                     _ => {}
                 },
                 _ => {}
@@ -1339,13 +1353,36 @@ impl Sub for CelValue {
                     }
                 }
                 CelValue::TimeStamp(v1) => match rhs {
-                    CelValue::Duration(v2) => return CelValue::from_timestamp(v1 - v2),
-                    CelValue::TimeStamp(v2) => return CelValue::from_duration(v1 - v2),
+                    CelValue::Duration(v2) => {
+                        return v1
+                            .checked_sub_signed(v2)
+                            .map_or_else(CelValue::time_overflow, CelValue::from_timestamp)
+                    }
+                    CelValue::TimeStamp(v2) => {
+                        let nanos = v1.timestamp_subsec_nanos() as i64
+                            - v2.timestamp_subsec_nanos() as i64;
+                        return v1
+                            .timestamp()
+                            .checked_sub(v2.timestamp())
+                            .and_then(|secs| secs.checked_add(nanos.div_euclid(1_000_000_000)))
+                            .and_then(|secs| {
+                                Duration::new(secs, nanos.rem_euclid(1_000_000_000) as u32)
+                            })
+                            .map_or_else(CelValue::time_overflow, CelValue::from_duration);
+                    }
                     _ => {}
                 },
                 CelValue::Duration(v1) => match rhs {
-                    CelValue::TimeStamp(v2) => return CelValue::from_timestamp(v2 - v1),
-                    CelValue::Duration(v2) => return CelValue::from_duration(v1 - v2),
+                    CelValue::TimeStamp(v2) => {
+                        return v2
+                            .checked_sub_signed(v1)
+                            .map_or_else(CelValue::time_overflow, CelValue::from_timestamp)
+                    }
+                    CelValue::Duration(v2) => {
+                        return v1
+                            .checked_sub(&v2)
+                            .map_or_else(CelValue::time_overflow, CelValue::from_duration)
+                    }
                     _ => {}
                 },
                 _ => {}
